@@ -1,10 +1,11 @@
 (* Judge for C04.
-   (1 usage signed m n calc dec maxlen minlen locsize lrecl struct text)  one configuration
+   (1 usage signed m n calc dec maxlen minlen locsize lrecl struct text sheetlrecl)  one configuration
        calc = estruct.calcsize(clause); dec = unpack(clause, canonical buffer of THAT size) succeeded;
        maxlen/minlen = schema keywords from schema_iter; locsize/lrecl = the field's Location size and the
        record's end from LocationMaker.from_schema; struct/text = Struct().calcsize / TextUnpacker().calcsize
-       on the loaded schema.  Each is (0 n) | (1 exn) | (2) not applicable.
-   (2 k calc maxlen locsize lrecl text)   alphanumeric X(k): every report is k *)
+       on the loaded schema; sheetlrecl = the lrecl a sheet of ONE long-lived COBOL_EBCDIC_File computes when the
+       schema is bound to it.  Each is (0 n) | (1 exn) | (2) not applicable.
+   (2 k calc maxlen locsize lrecl text sheetlrecl)   alphanumeric X(k): every report is k *)
 From Coq Require Import ZArith NArith List Bool.
 Import ListNotations.
 Require Import SR.Base.Sx SR.Base.Res SR.Spec.Encode SR.Spec.Fits SR.Spec.SizeCfg SR.Model.Estruct.
@@ -40,7 +41,7 @@ Definition judge (c : sx) : sx :=
         && rep_is (r 6%nat) 1
         && rep_is (r 7%nat) sz && rep_is (r 8%nat) sz && rep_is (r 9%nat) sz && rep_is (r 10%nat) sz
         && rep_is (r 11%nat) sz
-        && rep_is (r 12%nat) sz in
+        && rep_is (r 12%nat) sz && rep_is (r 13%nat) sz in
       let mdec := match mc with
                   | Ok w => if decoder_accepts u p (N.to_nat w) then RVal 1 else RErr 0
                   | Err _ => RNone end in
@@ -50,15 +51,15 @@ Definition judge (c : sx) : sx :=
            | RVal _, RVal _ => true | RErr _, RErr _ => true | RNone, RNone => true | _, _ => false end
         && rep_model (r 7%nat) mc && rep_model (r 8%nat) mc && rep_model (r 9%nat) mc && rep_model (r 10%nat) mc
         && rep_model (r 11%nat) (struct_calcsize u p)
-        && rep_model (r 12%nat) mc in
+        && rep_model (r 12%nat) mc && rep_model (r 13%nat) mc in
       (* a known finding excuses only its own, pinned, wrong behaviour: everything else must be right *)
-      let rest_ok := rep_is (r 7%nat) sz && rep_is (r 8%nat) sz && rep_is (r 9%nat) sz && rep_is (r 10%nat) sz && rep_is (r 12%nat) sz in
+      let rest_ok := rep_is (r 7%nat) sz && rep_is (r 8%nat) sz && rep_is (r 9%nat) sz && rep_is (r 10%nat) sz && rep_is (r 12%nat) sz && rep_is (r 13%nat) sz in
       let known :=
         match known_bad_C04 (u, s, m, n) with
         | Some 1 =>
             let wrong := if (m + n =? 4)%nat then 4%N else 8%N in
             if rep_is (r 5%nat) wrong && rep_any_err (r 6%nat) && rep_is (r 7%nat) wrong && rep_is (r 8%nat) wrong
-               && rep_is (r 9%nat) wrong && rep_is (r 10%nat) wrong && rep_is (r 12%nat) wrong && rep_is (r 11%nat) sz
+               && rep_is (r 9%nat) wrong && rep_is (r 10%nat) wrong && rep_is (r 12%nat) wrong && rep_is (r 13%nat) wrong && rep_is (r 11%nat) sz
             then Some 1 else None
         | Some 2 =>
             if rep_is (r 5%nat) sz && rest_ok && rep_is (r 11%nat) sz
@@ -74,6 +75,7 @@ Definition judge (c : sx) : sx :=
   else if kind =? 2 then
     let k := as_N (nth_sx 1 c) in
     let r i := rep_of (nth_sx i c) in
-    let all := rep_is (r 2%nat) k && rep_is (r 3%nat) k && rep_is (r 4%nat) k && rep_is (r 5%nat) k && rep_is (r 6%nat) k in
+    let all := rep_is (r 2%nat) k && rep_is (r 3%nat) k && rep_is (r 4%nat) k && rep_is (r 5%nat) k && rep_is (r 6%nat) k
+               && rep_is (r 7%nat) k in
     verdict None all all 2000 (L [of_N k])
   else L [A 9; A 0; L [A 0]].
